@@ -477,6 +477,47 @@ impl<'tcx> Cx<'tcx> {
         J::obj(vec![("k", J::s("bytes")), ("hex", J::Str(hex(&bytes)))])
     }
 
+    /// `Option<&T>` (T an integer type) stored at `off` in allocation `alloc_id`: Some(&v) -> {"k":"optref","v":v}, None -> {"k":"optref"}.
+    fn opt_ref_int_j(&self, opt_ty: Ty<'tcx>, alloc_id: mir::interpret::AllocId, off: u64) -> Option<J> {
+        let (def, args) = match opt_ty.kind() {
+            ty::Adt(def, args) => (def, args),
+            _ => return None,
+        };
+        if self.tcx.def_path_str(def.did()) != "std::option::Option" {
+            return None;
+        }
+        let pointee = match args.type_at(0).kind() {
+            ty::Ref(_, t, _) if t.is_integral() => *t,
+            _ => return None,
+        };
+        let width = self.tcx.layout_of(TypingEnv::fully_monomorphized().as_query_input(pointee)).ok()?.size.bytes();
+        if let Some(GlobalAlloc::Memory(m)) = self.tcx.try_get_global_alloc(alloc_id) {
+            let a = m.inner();
+            let psz = self.tcx.data_layout.pointer_size().bytes();
+            if off + psz > a.len() as u64 {
+                return None;
+            }
+            let raw = a.inspect_with_uninit_and_ptr_outside_interpreter(off as usize..(off + psz) as usize);
+            let mut base: u64 = 0;
+            for i in 0..psz as usize {
+                base |= (raw[i] as u64) << (8 * i);
+            }
+            match a.provenance().ptrs().iter().find(|(po, _)| po.bytes() == off).map(|(_, p)| p.alloc_id()) {
+                Some(t) => {
+                    let b = self.alloc_bytes(t, base, Some(width))?;
+                    let mut v: u128 = 0;
+                    for (i, x) in b.iter().enumerate() {
+                        v |= (*x as u128) << (8 * i);
+                    }
+                    return Some(J::obj(vec![("k", J::s("optref")), ("v", J::Int(v as i128))]));
+                }
+                None if base == 0 => return Some(J::obj(vec![("k", J::s("optref"))])),
+                None => return None,
+            }
+        }
+        None
+    }
+
     /// Bytes behind a `&[u8]` / `&str` fat pointer stored at `off` in allocation `alloc_id`.
     fn follow_fat(&self, alloc_id: mir::interpret::AllocId, off: u64) -> Option<Vec<u8>> {
         if let Some(GlobalAlloc::Memory(m)) = self.tcx.try_get_global_alloc(alloc_id) {
@@ -527,6 +568,12 @@ impl<'tcx> Cx<'tcx> {
                 // e.g. &[u8; N] or &'static T: expose pointee bytes when it is plain memory
                 let (prov, off) = ptr.into_raw_parts();
                 let alloc_id = prov.alloc_id();
+                // `&Option<&u8>` (promoted `&Some(&b'/')`, the right-hand side of `bytes.first() == Some(&b'/')`)
+                if let ty::Ref(_, inner, _) = ty.kind() {
+                    if let Some(j) = self.opt_ref_int_j(*inner, alloc_id, off.bytes()) {
+                        return j;
+                    }
+                }
                 // `&&str` / `&&[u8]` (a promoted reference to a string constant, e.g. the right-hand side of `s != "lit"`)
                 if let ty::Ref(_, inner, _) = ty.kind() {
                     if self.is_fat_u8(*inner) {
